@@ -667,3 +667,23 @@ Proof.
   - rewrite slice_add. change (0 + 12) with 12. rewrite Sfix, Ds. reflexivity.
   - unfold slice, skipnN. cbn [N.to_nat skipn]. f_equal. lia.
 Qed.
+
+(** ** the whole message: padding to 8 is zero, the body is exactly the announced number of bytes *)
+Theorem decode_message_sound bs nfds m : bytes_ok bs -> decode_message bs nfds = Ok m ->
+  exists used, decode_header bs = Ok (dm_hdr m, used) /\ used + padlen 8 used <= len bs
+    /\ slice bs used (padlen 8 used) = zeros (padlen 8 used)
+    /\ dm_nfds m = nfds
+    /\ dm_sig m = match h_signature (dm_hdr m) with Some s => s | None => [] end
+    /\ (h_body_len (dm_hdr m) = 0 -> dm_body m = [])
+    /\ (h_body_len (dm_hdr m) <> 0 ->
+        dm_body m = skipnN (used + padlen 8 used) bs /\ len bs = used + padlen 8 used + h_body_len (dm_hdr m)).
+Proof.
+  intros Hb H. unfold decode_message in H. apply bind_ok in H. destruct H as ([h used] & Hd & H). cbn [fst snd] in H.
+  unfold unmarshal_next_message in H. apply bind_ok in H. destruct H as (p & Ha & H).
+  destruct (align_offset_ok 8 bs used p ltac:(lia) Ha) as (-> & Hl & Hz).
+  exists used. destruct (N.eqb_spec (h_body_len h) 0) as [E|E].
+  - injection H as <-. cbn [dm_hdr dm_body dm_sig dm_nfds]. repeat split; auto; contradiction.
+  - destruct (N.ltb_spec (len bs - (used + padlen 8 used)) (h_body_len h)) as [|H1]; [discriminate|].
+    destruct (N.eqb_spec (len bs - (used + padlen 8 used)) (h_body_len h)) as [H2|]; cbn [negb] in H; [|discriminate].
+    injection H as <-. cbn [dm_hdr dm_body dm_sig dm_nfds]. repeat split; auto; try contradiction. lia.
+Qed.
